@@ -599,7 +599,13 @@ class Interp:
             self.exec_block(s.orelse, fr)
 
     def s_With(self, s, fr):
-        raise Unsupported("with statement")
+        for item in s.items:
+            v = self.eval(item.context_expr, fr)
+            if not isinstance(v, GhostObj):
+                raise Unsupported("with statement on a non-ghost object")
+            if item.optional_vars is not None:
+                self.assign(item.optional_vars, v, fr)
+        self.exec_block(s.body, fr)
 
     def s_FunctionDef(self, s, fr):
         raise Unsupported("nested function definition")
@@ -990,6 +996,9 @@ class Interp:
             if getattr(f, "__module__", "") == "spec.p2p" and f.__name__ == "node_iteration":
                 from . import ghosts
                 return ghosts.node_iteration(self, args, kwargs, node)
+            if getattr(f, "__module__", "") == "spec.cli" and f.__name__ == "effective_config":
+                from . import ghosts
+                return ghosts.effective_config(self, args, kwargs, node)
             if getattr(f, "__module__", "") == "spec.fs" and f.__name__ == "run_write":
                 from . import ghosts
                 return ghosts.fs_run_write(self, args, kwargs, node)
@@ -1019,19 +1028,26 @@ class Interp:
 
     def bind(self, fd, f, args, kwargs, node):
         a = fd.args
-        if a.vararg or a.kwarg:
-            # **kwargs only supported by dedicated models
-            raise Unsupported(f"*args/**kwargs in {f.__name__}")
+        if a.vararg:
+            raise Unsupported(f"*args in {f.__name__}")
         names = [x.arg for x in a.posonlyargs + a.args]
         env = {}
+        extra = {}
         if len(args) > len(names):
             self.raise_(TypeError, node)
         for n, v in zip(names, args):
             env[n] = v
         for k, v in kwargs.items():
-            if k in env or (k not in names and k not in [x.arg for x in a.kwonlyargs]):
+            if k in env:
+                self.raise_(TypeError, node)
+            if k not in names and k not in [x.arg for x in a.kwonlyargs]:
+                if a.kwarg:
+                    extra[k] = v
+                    continue
                 self.raise_(TypeError, node)
             env[k] = v
+        if a.kwarg:
+            env[a.kwarg.arg] = extra
         defaults = f.__defaults__ or ()
         for n, d in zip(names[len(names) - len(defaults):], defaults):
             if n not in env:
